@@ -236,6 +236,48 @@ def judge_failing_filter(res, pos, nrules, via):
         add_violation(res, "E:other-rules-changed-by-a-failing-filter", case, others, got)
 
 
+def judge_with_pipeline(res, nrules, ptype, collect_bad):
+    """(P) several filtered rules converted through a pipeline: every rule's query equals the query it gets when it is the only
+    rule of the collection (same filter, same pipeline); optionally the rules carry a collected, harmless load error"""
+    from sigma.collection import SigmaCollection
+    from sigma.processing.pipeline import ProcessingPipeline
+    from sigma.rule import SigmaRule
+
+    pipes = {"prefix": [{"type": "field_name_prefix", "prefix": "p."}], "suffix+upper": [{"type": "field_name_suffix", "suffix": "_s"}, {"type": "case", "method": "upper"}],
+             "replace": [{"type": "replace_string", "regex": "^", "replacement": "x"}]}
+    rdocs = [rule_doc(["sel"], "sel", n=i + 1) for i in range(nrules)]
+    if collect_bad:
+        for d in rdocs:
+            d["level"] = "severe"  # collected as an error, the rule itself is complete
+    f1 = filter_doc(["flt"], "not flt", n=1)
+    f2 = filter_doc(["a", "b"], "not 1 of them", n=2)
+    case = {"sub": "P", "rules": nrules, "pipeline": ptype, "rules_with_collected_error": collect_bad}
+    res["evaluations"] += 1
+
+    def conv(docs):
+        coll = SigmaCollection.from_dicts(copy.deepcopy(docs), collect_errors=collect_bad)
+        b = V.make_backend_class(K)(ProcessingPipeline.from_dict({"name": "p", "priority": 1, "transformations": copy.deepcopy(pipes[ptype])}))
+        b.init_processing_pipeline()
+        return {r.title: b.convert_rule(r) for r in coll.rules if isinstance(r, SigmaRule)}
+
+    try:
+        together = conv(rdocs + [f1, f2])
+        alone = {}
+        for d in rdocs:
+            alone.update(conv([d, f1, f2]))
+        unfiltered = conv(rdocs)
+    except Exception as e:
+        add_violation(res, f"P:exception:{type(e).__name__}", case, "queries", repr(e)[:200])
+        return
+    res["nontrivial"].add(h64(case))
+    res["outcomes"].add(h64(["P", sorted(together)]))
+    if together != alone:
+        diff = sorted(t for t in alone if together.get(t) != alone[t])
+        add_violation(res, "P:filtered-rule-converts-differently-next-to-other-rules", dict(case, titles=diff), {t: alone[t] for t in diff}, {t: together.get(t) for t in diff})
+    elif any(together[t] == unfiltered[t] for t in together):
+        add_violation(res, "P:filter-not-applied" + (":rules-with-collected-error" if collect_bad else ""), case, "filtered", {t: together[t] for t in together if together[t] == unfiltered[t]})
+
+
 ATTRS = ["category", "product", "service"]
 
 
@@ -355,6 +397,10 @@ def run_shard(shard, tier, seed):
                 r2 = rule_doc(["sel"], "sel", n=2)
                 f = filter_doc(["flt"], "not flt", rules=rules)
                 judge_applies(res, "R", [rm, r2], f, {"rule1": True, "rule2": rules == "any"}, f"multi-condition/{len(conds)}/{rules!r}")
+        for nrules in (1, 2, 3):
+            for ptype in ("prefix", "suffix+upper", "replace"):
+                for collect_bad in (False, True):
+                    judge_with_pipeline(res, nrules, ptype, collect_bad)
         for nrules in (1, 2, 3, 4):
             for pos in range(nrules):
                 for via in ("bad-last", "bad-first"):
